@@ -221,6 +221,42 @@ CASES = {k: safe("C05", f) for k, f in {"call": check_call, "class": check_class
 
 
 def _worker(shard):
+    """Class BFS (sequences of interchanges) from one representative per interchanger class."""
+    part = Part()
+    seed, items = shard
+    for recipe in items:
+        params = dict(recipe=recipe)
+        res = CASES["class"](params)
+        st = params.pop("_stats", (0, 0))
+        part.count("class_states", st[0])
+        part.count("class_edges_replayed", st[1])
+        part.count("traces_validated_against_impl", st[1])
+        part.note("class_sizes", st[0])
+        if params.pop("_capped", False):
+            part.count("class_capped")
+        for sig, msg in res:
+            part.violation(sig, msg, "class", params)
+    return part
+
+
+def _class_ids(shard):
+    from mc import c06
+    out = []
+    for recipe in shard:
+        m = build.to_model(recipe)
+        if len(m[1]) < 2:
+            continue
+        members, capped = c06.model_class(m, cap=2000)
+        out.append((recipe, c06.class_id(members) if not capped else "capped:" + digest(repr(m))))
+    return out
+
+
+def _worker_calls_linear(shard):
+    part = _worker_calls(shard, validated=True)
+    return part
+
+
+def _worker_calls(shard, validated=False):
     part = Part()
     seed, items = shard
     for recipe in items:
@@ -232,45 +268,14 @@ def _worker(shard):
                     params = dict(recipe=recipe, i=i, j=j, left=left, seed=seed)
                     res = CASES["call"](params)
                     part.count("transitions")
-                    if 0 <= i < n and 0 <= j < n and i != j:
+                    if validated and 0 <= i < n and 0 <= j < n and i != j:
                         part.count("traces_validated_against_impl", abs(i - j))
                     for sig, msg in res:
                         part.violation(sig, msg, "call", params)
         if n >= 2:
             part.seen("nontrivial", repr(recipe))
-        # class exploration (sequences of interchanges)
-        if n >= 2:
-            params = dict(recipe=recipe)
-            res = CASES["class"](params)
-            st = params.pop("_stats", (0, 0))
-            part.count("class_states", st[0])
-            part.count("class_edges_replayed", st[1])
-            part.count("traces_validated_against_impl", st[1])
-            part.note("class_sizes", st[0])
-            if params.pop("_capped", False):
-                part.count("class_capped")
-            for sig, msg in res:
-                part.violation(sig, msg, "class", params)
         if len(part.samples) < 2 and n >= 2:
             part.sample(dict(recipe=recipe, calls="all (i,j) in [-1,%d]^2 x left" % n))
-    return part
-
-
-def _worker_calls(shard):
-    part = Part()
-    seed, items = shard
-    for recipe in items:
-        n = len(recipe[2])
-        part.count("states")
-        for i in range(-1, n + 1):
-            for j in range(-1, n + 1):
-                for left in (False, True):
-                    params = dict(recipe=recipe, i=i, j=j, left=left, seed=seed)
-                    res = CASES["call"](params)
-                    part.count("transitions")
-                    for sig, msg in res:
-                        part.violation(sig, msg, "call", params)
-        part.seen("nontrivial", repr(recipe))
     return part
 
 
@@ -310,8 +315,16 @@ def run(ctx):
         items = [r for r in recipes if r not in seen]
         seen.update(items)
         ctx.note("universe_sizes", "%s=%d" % (label, len(items)))
-        parts = pmap(_worker, [(ctx.seed, s) for s in build.shards(items, 64)])
-        for p in parts:
+        # every call on every diagram
+        for p in pmap(_worker_calls_linear, [(ctx.seed, s) for s in build.shards(items, 64)]):
+            ctx.merge(p)
+        # sequences: walk each interchanger class once, from one representative
+        reps = {}
+        for chunk in pmap(_class_ids, build.shards(items, 64)):
+            for recipe, cid in chunk:
+                reps.setdefault(cid, recipe)
+        ctx.note("classes", "%s: %d classes" % (label, len(reps)))
+        for p in pmap(_worker, [(ctx.seed, s) for s in build.shards([reps[k] for k in sorted(reps)], 64)]):
             ctx.merge(p)
     # other diagram classes (boxes without a dagger, bubbles, typed wires): every call on every diagram
     from mc import pools
